@@ -120,9 +120,7 @@ Section Inv.
     forall o s, P s -> P (fst (parse_opened NM cb o s)).
   Proof.
     intros S P cb Hcb o s Hs; unfold parse_opened.
-    destruct o as [|d f|].
-    - pose proof (parse_stream_inv NM P cb Hcb [] NoFault s Hs) as H.
-      destruct (parse_stream NM cb [] NoFault s) as [s' r]; exact H.
+    destruct o as [d f|].
     - pose proof (parse_stream_inv NM P cb Hcb d f s Hs) as H.
       destruct (parse_stream NM cb d f s) as [s' r]; exact H.
     - pose proof (parse_stream_inv NM P cb Hcb [] (FailAt 0) s Hs) as H.
